@@ -122,6 +122,8 @@ pub fn run(prop: &str, path: &str) -> i32 {
                         println!("exit status {:?}\nstdout: {}\nstderr: {}", o.status, o.stdout.trim(), o.stderr.trim());
                         if o.status != Some(0) || o.stderr.contains("panicked") || o.stdout.trim().is_empty() {
                             acc.violation("C15|cli|replay".into(), format!("walleye --fen={:?} -T -d 1: exit status {:?}", s, o.status), case.clone());
+                        } else if o.stdout.contains("Searched to a depth of") && matches!(crate::par::catch(|| crate::board::BoardState::from_fen(s).is_ok()), Ok(false)) {
+                            acc.violation("C15|cli-ran-what-loading-rejects|replay".into(), format!("walleye --fen={:?} -T -d 1 ran a perft although loading this string reports an error", s), case.clone());
                         }
                     }
                     Err(e) => {
@@ -148,8 +150,11 @@ pub fn run(prop: &str, path: &str) -> i32 {
             match bb::build_plain().and_then(|bin| bb::run_cli(&bin, &args, 20_000)) {
                 Ok(o) => {
                     println!("exit status {:?}\nstdout: {}\nstderr: {}", o.status, o.stdout.trim(), o.stderr.trim());
+                    let bytes: Vec<u8> = (0..hex.len() / 2).filter_map(|i| u8::from_str_radix(&hex[2 * i..2 * i + 2], 16).ok()).collect();
                     if o.status != Some(0) || o.stderr.contains("panicked") || o.stdout.trim().is_empty() {
                         acc.violation("C15|cli-bytes|replay".into(), format!("walleye --fen=<bytes {}> -T -d 1: exit status {:?}", hex, o.status), case.clone());
+                    } else if o.stdout.contains("Searched to a depth of") && matches!(crate::par::catch(|| crate::board::BoardState::from_fen(&String::from_utf8_lossy(&bytes)).is_ok()), Ok(false)) {
+                        acc.violation("C15|cli-bytes-ran|replay".into(), format!("walleye --fen=<bytes {}> -T -d 1 ran a perft instead of printing the load error", hex), case.clone());
                     }
                 }
                 Err(e) => {
